@@ -32,8 +32,11 @@ impl DuplicateServiceUuid {
             }
         }
 
-        for (_, entries) in uuids {
+        for (_, mut entries) in uuids {
             if entries.len() > 1 {
+                // Schemas are visited in no particular order. Sort them, such that the error is
+                // always attributed to the same schema.
+                entries.sort_by(|a, b| a.0.name().cmp(b.0.name()));
                 let first = entries.first().unwrap();
 
                 issues.add_error(Self {
